@@ -45,7 +45,9 @@ func DJBHash32(k string) uint32 {
 	var ks = *(*unsafe.Pointer)(unsafe.Pointer(&k))
 	for i := 0; i < len(k); i++ {
 		c := *(*byte)(rt.IndexPtr(ks, byteTypeSize, i))
-		hash = ((hash << 5) + hash + uint32(c))
+		// the native twin (hash_DJB32 in native/map.c) reads the key through a signed char pointer:
+		// bytes >= 0x80 are sign-extended there, so they must be here, or native lookups miss such keys
+		hash = ((hash << 5) + hash + uint32(int32(int8(c))))
 	}
 	return hash
 }
